@@ -225,8 +225,12 @@ def same_term(a, b):
 
 
 def _canon(t):
-    """Hashable canonical form (lists -> tuples; call bb ids kept)."""
+    """Hashable canonical form (lists -> tuples; call bb ids kept).  A
+    multiply-defined local is identified by its number only (its expansion
+    depends on where a cyclic definition chain was cut)."""
     if isinstance(t, (list, tuple)):
+        if t and t[0] == "phi" and len(t) == 3:
+            return ("phi", t[1])
         return tuple(_canon(x) for x in t)
     return t
 
@@ -240,6 +244,8 @@ def canon_nobb(t):
     t = deep_strip(t)
 
     def go(x):
+        if isinstance(x, tuple) and x and x[0] == "phi" and len(x) == 3:
+            return ("phi", x[1])
         if isinstance(x, tuple) and x and x[0] == "call":
             return ("call", x[1], x[2], tuple(go(a) for a in x[3]))
         if isinstance(x, (list, tuple)):
@@ -297,3 +303,196 @@ def field_path(t):
     if t[0] == "phi" and t[2] and strip(t[2][0])[0] == "arg":
         return ("arg", strip(t[2][0])[1], names[::-1])
     return None
+
+
+# ---------------------------------------------------------------------------
+# ordering relations, freshness, cycles
+# ---------------------------------------------------------------------------
+
+def relations(body, bb, facts=None):
+    """Dominating ordering facts normalised to (a, '<'|'<=', b) over stripped
+    terms."""
+    out = []
+    for t, v in bool_facts(body, bb, facts):
+        if t[0] != "bin" or t[1] not in ("Lt", "Le", "Gt", "Ge"):
+            continue
+        op, a, b = t[1], t[2], t[3]
+        if (op == "Lt" and v) or (op == "Ge" and not v):
+            out.append((a, "<", b))
+        elif (op == "Gt" and v) or (op == "Le" and not v):
+            out.append((b, "<", a))
+        elif (op == "Le" and v) or (op == "Gt" and not v):
+            out.append((a, "<=", b))
+        elif (op == "Ge" and v) or (op == "Lt" and not v):
+            out.append((b, "<=", a))
+    return out
+
+
+def relation_edges(body, bb, facts=None):
+    """Like relations() but also returns the switch edge of each fact:
+    [(a, rel, b, (sw_bb, label))]."""
+    out = []
+    for t, v, e in facts_at(body, bb, facts):
+        for subj, o in _norm_fact(t, v):
+            if not isinstance(o, bool):
+                continue
+            s = deep_strip(subj)
+            if s[0] != "bin" or s[1] not in ("Lt", "Le", "Gt", "Ge"):
+                continue
+            op, a, b = s[1], s[2], s[3]
+            if (op == "Lt" and o) or (op == "Ge" and not o):
+                out.append((a, "<", b, e))
+            elif (op == "Gt" and o) or (op == "Le" and not o):
+                out.append((b, "<", a, e))
+            elif (op == "Le" and o) or (op == "Gt" and not o):
+                out.append((a, "<=", b, e))
+            elif (op == "Ge" and o) or (op == "Lt" and not o):
+                out.append((b, "<=", a, e))
+    return out
+
+
+def leaf_def_blocks(body, operand, depth=0):
+    """Blocks in which the leaf reads (field reads, calls) feeding `operand`
+    are evaluated, following copies, casts and arithmetic through
+    single-definition temporaries."""
+    out = set()
+    if operand[0] not in ("c", "m"):
+        return out
+    pl = operand[1]
+    if len(pl) > 1:
+        return out  # direct place read: evaluated where it is used (caller adds that block)
+    n = pl[0]
+    ds = body.defs().get(n, [])
+    if 1 <= n <= body.nargs and not ds:
+        return out
+    for d in ds:
+        if d[0] == "call":
+            out.add(d[1])
+        elif d[0] == "resume":
+            out.add(d[1])
+        elif d[0] == "stmt":
+            rv = d[3]
+            k = rv[0]
+            ops = []
+            if k == "use":
+                ops = [rv[1]]
+            elif k == "cast":
+                ops = [rv[2]]
+            elif k == "bin":
+                ops = [rv[2], rv[3]]
+            elif k == "un":
+                ops = [rv[2]]
+            else:
+                out.add(d[1])
+                continue
+            sub = set()
+            direct = False
+            for o in ops:
+                if o[0] in ("c", "m") and len(o[1]) > 1:
+                    direct = True
+                elif o[0] in ("c", "m") and depth < 12:
+                    sub |= leaf_def_blocks(body, o, depth + 1)
+            if direct:
+                out.add(d[1])
+            out |= sub
+    return out
+
+
+def on_every_cycle(body, site, via):
+    """True iff every CFG cycle through block `site` passes through block
+    `via` (or there is no cycle through `site`)."""
+    if site == via:
+        return True
+    for s, lab in body.succs(site):
+        if s == via:
+            continue
+        r = body.reach_from(s, removed_blocks=[via])
+        if site in r or s == site:
+            return False
+    return True
+
+
+def cyclic_blocks(body, removed=()):
+    """Blocks lying on some cycle of the normal-edge CFG after removing the
+    given blocks."""
+    removed = set(removed)
+    reach = [b for b in body.reachable_blocks() if b not in removed]
+    out = set()
+    for b in reach:
+        for s, lab in body.succs(b):
+            if s in removed:
+                continue
+            if s == b or b in body.reach_from(s, removed_blocks=removed):
+                out.add(b)
+                break
+    return out
+
+
+def interval_of(body, bb, subject_pred, facts=None):
+    """Integer interval [lo, hi] (None = unbounded) and excluded constants
+    implied for terms satisfying subject_pred by the dominating facts at bb.
+    Understands </<=/>/>= against constants, ==/!= constants and
+    RangeInclusive/Range::contains."""
+    lo, hi, excl = None, None, set()
+
+    def tighten(nlo=None, nhi=None):
+        nonlocal lo, hi
+        if nlo is not None and (lo is None or nlo > lo):
+            lo = nlo
+        if nhi is not None and (hi is None or nhi < hi):
+            hi = nhi
+
+    for t, v in bool_facts(body, bb, facts):
+        if t[0] == "bin":
+            op, a, b = t[1], t[2], t[3]
+            ka, kb = const_value(a), const_value(b)
+            if kb is not None and subject_pred(a):
+                x = kb
+                if (op == "Lt" and v) or (op == "Ge" and not v):
+                    tighten(nhi=x - 1)
+                elif (op == "Le" and v) or (op == "Gt" and not v):
+                    tighten(nhi=x)
+                elif (op == "Gt" and v) or (op == "Le" and not v):
+                    tighten(nlo=x + 1)
+                elif (op == "Ge" and v) or (op == "Lt" and not v):
+                    tighten(nlo=x)
+                elif (op == "Eq" and v) or (op == "Ne" and not v):
+                    tighten(nlo=x, nhi=x)
+                elif (op == "Ne" and v) or (op == "Eq" and not v):
+                    excl.add(x)
+            elif ka is not None and subject_pred(b):
+                x = ka
+                if (op == "Gt" and v) or (op == "Le" and not v):
+                    tighten(nhi=x - 1)
+                elif (op == "Ge" and v) or (op == "Lt" and not v):
+                    tighten(nhi=x)
+                elif (op == "Lt" and v) or (op == "Ge" and not v):
+                    tighten(nlo=x + 1)
+                elif (op == "Le" and v) or (op == "Gt" and not v):
+                    tighten(nlo=x)
+                elif (op == "Eq" and v) or (op == "Ne" and not v):
+                    tighten(nlo=x, nhi=x)
+                elif (op == "Ne" and v) or (op == "Eq" and not v):
+                    excl.add(x)
+        elif t[0] == "call" and t[1] and t[1].endswith("::contains") and len(t[3]) == 2 and v is True:
+            rng = deep_strip(t[3][0])
+            if subject_pred(deep_strip(t[3][1])):
+                if rng[0] == "call" and "RangeInclusive" in (rng[1] or "") and rng[1].endswith("::new"):
+                    a, b = const_value(rng[3][0]), const_value(rng[3][1])
+                    if a is not None and b is not None:
+                        tighten(nlo=a, nhi=b)
+                elif rng[0] == "agg" and len(rng[1]) > 1 and str(rng[1][1]).endswith("::Range"):
+                    a, b = const_value(rng[2][0]), const_value(rng[2][1])
+                    if a is not None and b is not None:
+                        tighten(nlo=a, nhi=b - 1)
+    # fold excluded endpoints
+    changed = True
+    while changed:
+        changed = False
+        if lo is not None and lo in excl:
+            lo += 1
+            changed = True
+        if hi is not None and hi in excl:
+            hi -= 1
+            changed = True
+    return lo, hi, excl
